@@ -38,6 +38,19 @@ func (e *env) newSession(manual bool, out *Outcome) *session {
 // freshReplay replays the write steps (no accessors, no yields, no
 // poison) on a fresh object and returns its content.
 func (e *env) freshReplay(manual bool, steps []Step) string {
+	out, _ := e.freshReplayMode(manual, steps)
+	return out
+}
+
+func (s *session) getMode() int {
+	if s.sb != nil {
+		return int(s.sb.GetMode())
+	}
+	return int(s.mb.GetMode())
+}
+
+// freshReplayMode also returns the output mode the fresh object ends in.
+func (e *env) freshReplayMode(manual bool, steps []Step) (string, int) {
 	var sink Outcome
 	s := e.newSession(manual, &sink)
 	for i := range steps {
@@ -47,7 +60,7 @@ func (e *env) freshReplay(manual bool, steps []Step) string {
 		}
 		s.step(st)
 	}
-	return string(s.b.RedactableString())
+	return string(s.b.RedactableString()), s.getMode()
 }
 
 func execBSession(e *env, op *Op, out *Outcome) {
@@ -85,6 +98,12 @@ func execBSession(e *env, op *Op, out *Outcome) {
 				}
 				if want := e.freshReplay(manual, op.S[segStart:i]); now != want {
 					fail("snapshot-differs-from-fresh-replay", "Len", fmt.Sprintf("at step %d: after Len(), RedactableString() = %q, a new object gives %q", i, clip(now), clip(want)))
+				}
+			case "mode":
+				s.note("GetMode")
+				got := s.getMode()
+				if _, want := e.freshReplayMode(manual, op.S[segStart:i]); got != want {
+					fail("mode-differs-from-fresh-replay", "GetMode", fmt.Sprintf("at step %d: GetMode() = %d, the same calls on a new object leave it in mode %d", i, got, want))
 				}
 			default:
 				s.step(st)
